@@ -128,6 +128,12 @@ class Client:
         self.extra_gets = []      # [kind, state] for C18
         self.ever_open = False    # first websocket open seen
         self.lazy_messages = lazy_messages
+        # an application that calls back into the library from inside its
+        # callbacks (half of the clients when the world option is on)
+        self.reentrant = bool(world.opts.get("reentrant")) and \
+            world.tape.choose(2, "reentrant") == 0
+        self.react_budget = world.tape.choose(3, "react") \
+            if self.reentrant else 0
         self.saw_failure = False  # the app has been told about an error
         self._wait_from = {}
         self.versions = versions if versions is not None else {}
@@ -151,6 +157,23 @@ class Client:
         self.world.sim.ev("appev", self.name, kind)
         if self.world.on_app_event:
             self.world.on_app_event(self, kind, value)
+        if self.reentrant and kind in ("key", "verifier", "versions",
+                                       "message") and \
+                self.pc < len(self.script) and \
+                self.script[self.pc][0] in ("send", "close") and \
+                self.world.tape.choose(2, "reenter") == 0:
+            # the application reacts from inside the callback: its next
+            # scripted send / close happens right here, re-entrantly
+            self.world.sim.note("probe.api_call_from_inside_callback")
+            self.world._step_op(self, self.script[self.pc])
+        elif self.reentrant and self.react_budget > 0 and \
+                kind in ("verifier", "versions", "message") and \
+                not self.close_called and not self.is_closed:
+            # ... or answers at once with a message of its own
+            self.react_budget -= 1
+            self.world.sim.note("probe.api_call_from_inside_callback")
+            self.do_send(b"re:%s:%d" % (self.name.encode(),
+                                        len(self.sent)))
 
     def _closed(self, result, primary=True):
         self.closed_results.append(result)
